@@ -195,6 +195,39 @@ fn real_main(args: &[String], props: &[&dyn Prop]) -> i32 {
             use assembly::ast::{AstSerdeOptions, ProgramAst};
             use std::io::Write;
             let depth: usize = args.get(1).and_then(|s| s.parse().ok()).unwrap_or(10);
+            if args.get(2).map(|s| s == "bytes").unwrap_or(false) {
+                // the decoder alone: nested `while` blocks crafted directly as bytes
+                let enc = |d: usize| {
+                    let mut s = String::from("begin ");
+                    for _ in 0..d {
+                        s.push_str("push.1 while.true ");
+                    }
+                    s.push_str("push.0 ");
+                    for _ in 0..d {
+                        s.push_str("end ");
+                    }
+                    s.push_str("end");
+                    ProgramAst::parse(&s).unwrap().to_bytes(AstSerdeOptions::new(false))
+                };
+                let (a, b) = (enc(2), enc(3));
+                let p = a.iter().zip(b.iter()).take_while(|(x, y)| x == y).count();
+                let sfx = a.iter().rev().zip(b.iter().rev()).take_while(|(x, y)| x == y).count().min(a.len() - p);
+                let unit = b[p..b.len() - sfx].to_vec();
+                let mut bytes = a[..p].to_vec();
+                for _ in 0..depth {
+                    bytes.extend_from_slice(&unit);
+                }
+                bytes.extend_from_slice(&a[p..]);
+                println!("LEN {} bytes", bytes.len());
+                println!("STAGE start");
+                let _ = std::io::stdout().flush();
+                let r = ProgramAst::from_bytes(&bytes);
+                println!("{}", if r.is_ok() { "STAGE decoded" } else { "STAGE decode-rejected" });
+                let _ = std::io::stdout().flush();
+                drop(r);
+                println!("STAGE done");
+                return 0;
+            }
             let mut src = String::from("begin ");
             for _ in 0..depth {
                 src.push_str("push.1 if.true ");
